@@ -30,26 +30,26 @@ StdVal(c) == IF c \in 65..90 THEN c - 65
              ELSE -1
 
 \* ---- RFC 4648 section 4 on bits
-Bit(b, k) == IF k > 8 * Len(b) THEN 0 ELSE (b[(k - 1) \div 8 + 1] \div (2 ^ (7 - (k - 1) % 8))) % 2      \* k = 1 .. (zero beyond)
+Bit(b, k) == IF k > 8 * Len(b) THEN 0 ELSE ((b[((k - 1) \div 8) + 1]) \div (2 ^ (7 - ((k - 1) % 8)))) % 2      \* k = 1 .. (zero beyond)
 Group(b, j) == Bit(b, 6 * j + 1) * 32 + Bit(b, 6 * j + 2) * 16 + Bit(b, 6 * j + 3) * 8
                + Bit(b, 6 * j + 4) * 4 + Bit(b, 6 * j + 5) * 2 + Bit(b, 6 * j + 6)                      \* j = 0 ..
 NGroups(b) == (8 * Len(b) + 5) \div 6
 Enc(b, url) == LET ng == NGroups(b)
-                   np == IF url THEN 0 ELSE (4 - ng % 4) % 4
+                   np == IF url THEN 0 ELSE (4 - (ng % 4)) % 4
                IN [j \in 1..ng |-> Ch(Group(b, j - 1), url)] \o [k \in 1..np |-> Pad]
 
 \* ---- decoding as the inverse of Enc
 V0(c) == IF StdVal(c) < 0 THEN 0 ELSE StdVal(c)
 TailPads(s) == LET n == Len(s) IN IF n >= 1 /\ s[n] = Pad THEN (IF n >= 2 /\ s[n - 1] = Pad THEN 2 ELSE 1) ELSE 0
 Cand(s) == LET n == Len(s)
-               nb == (n \div 4) * 3 - TailPads(s)
+               nb == ((n \div 4) * 3) - TailPads(s)
            IN [k \in 1..nb |->
                  LET q == (k - 1) \div 3
                      r == (k - 1) % 3
                      v1 == V0(s[4 * q + 1])  v2 == V0(s[4 * q + 2])  v3 == V0(s[4 * q + 3])  v4 == V0(s[4 * q + 4])
-                 IN CASE r = 0 -> v1 * 4 + v2 \div 16
-                      [] r = 1 -> (v2 % 16) * 16 + v3 \div 4
-                      [] OTHER -> (v3 % 4) * 64 + v4]
+                 IN CASE r = 0 -> (v1 * 4) + (v2 \div 16)
+                      [] r = 1 -> ((v2 % 16) * 16) + (v3 \div 4)
+                      [] OTHER -> ((v3 % 4) * 64) + v4]
 AbsDecode(s) == IF Len(s) = 0 THEN [ok |-> TRUE, out |-> <<>>]
                 ELSE IF Len(s) % 4 # 0 THEN [ok |-> FALSE, out |-> <<>>]
                 ELSE LET c == Cand(s) IN IF Enc(c, FALSE) = s THEN [ok |-> TRUE, out |-> c] ELSE [ok |-> FALSE, out |-> <<>>]
